@@ -168,7 +168,9 @@ func (ni *NodeInfo) NonAllocatedResource(resourceType v1.ResourceName) float64 {
 func (ni *NodeInfo) IsTaskAllocatable(task *pod_info.PodInfo) bool {
 	if isBestEffortJob := task.ResReq.IsEmpty() &&
 		(len(task.GetAllStorageClaims()) == 0) && !task.IsMemoryRequest(); isBestEffortJob {
-		return true
+		// a pod without resource requests still takes a pod slot of the node, and only an idle one can be bound to
+		return task.ResReq.ScalarResources()[resource_info.PodsResourceName] <=
+			ni.Idle.ScalarResources()[resource_info.PodsResourceName]
 	}
 
 	if allocatable := ni.isTaskAllocatableOnNonAllocatedResources(task, ni.Idle); !allocatable {
